@@ -4,7 +4,7 @@
 set -e
 cd "$(dirname "$0")/.."
 export CARGO_NET_OFFLINE=true
-(cd lean && lake build GraphrsModel driver)
+(cd lean && lake build GraphrsModel GraphrsModel.AllProps driver)
 (cd harness && cargo build --release --offline)
 mkdir -p work evidence
 echo setup done
